@@ -91,6 +91,16 @@ def _z3_worker(smt2, timeout_ms, conn, tactic, seed=0):
         conn.close()
 
 
+def _cvc5_worker(smt2, timeout_ms, conn, tactic=None, seed=None):
+    try:
+        v, dt = run_cvc5(smt2, timeout_ms / 1000.0)
+        conn.send((v, dt, {'reason': 'cvc5 unknown/timeout'} if v == 'unknown' else {}))
+    except Exception as e:     # pragma: no cover
+        conn.send(('unknown', 0.0, {'reason': f'cvc5 worker error {e!r}'}))
+    finally:
+        conn.close()
+
+
 def run_cvc5(smt2, timeout_s, extra=()):
     text = smt2
     if '(set-logic' not in text:
@@ -286,6 +296,8 @@ def discharge(obligs, timeout_s=30, jobs=None, quick_ms=400, use_cvc5=True, cvc5
     #    re-seeded ones only use cores that would otherwise idle while stragglers run.
     running = []
     seeds = (0, 7, 13, 101) if not tactic else (0,)
+    if use_cvc5 and os.path.exists(CVC5) and not tactic:
+        seeds = (0, 'cvc5', 7, 13, 101)        # cvc5 races z3 from the start (strings, sequences: often the only one that answers)
     queue = [(i, sd) for sd in seeds for i in pending]
     ctxm = mp.get_context('fork')
     hard = timeout_s * 1.5 + 5
@@ -308,7 +320,7 @@ def discharge(obligs, timeout_s=30, jobs=None, quick_ms=400, use_cvc5=True, cvc5
             if i in decided:
                 continue
             parent, child = ctxm.Pipe(duplex=False)
-            pr = ctxm.Process(target=_z3_worker, args=(texts[i], int(timeout_s * 1000), child, tactic, sd))
+            pr = ctxm.Process(target=(_cvc5_worker if sd == 'cvc5' else _z3_worker), args=(texts[i], int(timeout_s * 1000), child, tactic, sd))
             pr.start()
             child.close()
             t_first.setdefault(i, time.time())
@@ -327,7 +339,10 @@ def discharge(obligs, timeout_s=30, jobs=None, quick_ms=400, use_cvc5=True, cvc5
                 pr.join()
                 if verdict in ('sat', 'unsat'):
                     decided.add(i)
-                    results[i] = Result(obligs[i], verdict, 'z3' if sd == 0 else f'z3(seed={sd})', dt, model if verdict == 'sat' else {})
+                    results[i] = Result(obligs[i], verdict, 'cvc5' if sd == 'cvc5' else ('z3' if sd == 0 else f'z3(seed={sd})'), dt,
+                                        model if verdict == 'sat' else {})
+                    if sd == 'cvc5':
+                        results[i].cvc5 = verdict
                     if progress:
                         progress(results[i])
                 else:
@@ -346,7 +361,9 @@ def discharge(obligs, timeout_s=30, jobs=None, quick_ms=400, use_cvc5=True, cvc5
             time.sleep(0.01)
     # 3. cvc5 for unknowns (or everything)
     if use_cvc5 and os.path.exists(CVC5):
-        todo = [i for i, r in enumerate(results) if isinstance(r, Result) and (r.verdict == 'unknown' or (cvc5_all and r.backend != 'simplify'))]
+        raced = set(pending) if 'cvc5' in seeds else set()
+        todo = [i for i, r in enumerate(results) if isinstance(r, Result) and ((r.verdict == 'unknown' and i not in raced)
+                                                                               or (cvc5_all and r.backend not in ('simplify', 'cvc5')))]
         if todo:
             from concurrent.futures import ThreadPoolExecutor
             with ThreadPoolExecutor(max_workers=jobs) as tp:
